@@ -872,12 +872,32 @@ func opChangeDefault(e *Editor, ws *Workspace) (*Edit, bool) {
 		return nil, false
 	}
 	s := sites[e.pick("site", len(sites))]
-	if old, ok := GetOption(s.fld.Options, "default"); ok && e.pick("remove", 3) == 0 {
+	// half of the time prefer a field whose current default is near the limit of a 64-bit type
+	var bigSites []fieldSite
+	for _, x := range sites {
+		if cur, ok := GetOption(x.fld.Options, "default"); ok && isBig(cur) {
+			bigSites = append(bigSites, x)
+		}
+	}
+	if len(bigSites) > 0 && e.pick("preferbig", 2) == 0 {
+		s = bigSites[e.pick("bigsite", len(bigSites))]
+	}
+	if old, ok := GetOption(s.fld.Options, "default"); ok && !isBig(old) && e.pick("remove", 3) == 0 {
 		_ = old
 		s.fld.Options = DelOption(s.fld.Options, "default")
 	} else {
 		// values 11..19 never collide with generator defaults (1..9)
 		next := defaultFor(s.fld.Type, e.intn("defval", 11, 19))
+		if big, ok := BigDefaults[s.fld.Type]; ok {
+			// a neighbouring value near the type's limit (different from the current one)
+			cur, _ := GetOption(s.fld.Options, "default")
+			for _, cand := range big {
+				if cand != cur && (isBig(cur) || e.pick("gobig", 3) == 0) {
+					next = cand
+					break
+				}
+			}
+		}
 		if s.fld.Type == "bool" {
 			// an absent bool default is false: only true<->false is a change
 			next = "true"
@@ -887,8 +907,156 @@ func opChangeDefault(e *Editor, ws *Workspace) (*Edit, bool) {
 		}
 		s.fld.Options = SetOption(s.fld.Options, "default", next)
 	}
-	return &Edit{Op: "change-default", Desc: fmt.Sprintf("%s.%s default changed", s.msg.Full, s.fld.Name), Rules: []string{"FIELD_SAME_DEFAULT"},
+	op := "change-default"
+	if nv, _ := GetOption(s.fld.Options, "default"); isBig(nv) {
+		op = "change-default-near-limit"
+	}
+	return &Edit{Op: op, Desc: fmt.Sprintf("%s.%s default changed", s.msg.Full, s.fld.Name), Rules: []string{"FIELD_SAME_DEFAULT"},
 		File: s.file.Path, ElemID: s.fld.ID, Mention: []string{numStr(s.fld.Number), `"` + s.fld.Name + `"`}}, true
+}
+
+func isBig(v string) bool { return len(strings.TrimPrefix(v, "-")) >= 16 }
+
+// MoveMessage moves a self-contained top-level message (all its message/enum typed fields refer to types nested
+// in it) to another file of the same package and module. Returns the message and both files.
+func (e *Editor) MoveMessage(ws *Workspace) (*Message, *File, *File, bool) {
+	refs := typeRefs(ws)
+	type cand struct {
+		m        *Message
+		from, to *File
+	}
+	var cands []cand
+	for _, f := range userFiles(ws) {
+		for _, g := range userFiles(ws) {
+			if f == g || f.Package != g.Package || ws.ModuleOf(f) != ws.ModuleOf(g) || f.Syntax != g.Syntax {
+				continue
+			}
+			for _, m := range f.Messages {
+				full := "." + FullName(f.Package, m.Name)
+				if referencedOutside(ws, f, full) || refs == nil {
+					continue
+				}
+				ok := true
+				var rec func(x *Message)
+				rec = func(x *Message) {
+					if len(x.Extensions) > 0 {
+						ok = false
+					}
+					for _, fld := range x.Fields {
+						if fld.TypeKind == "message" || fld.TypeKind == "enum" {
+							if !(fld.Type == full || strings.HasPrefix(fld.Type, full+".")) {
+								ok = false
+							}
+						}
+						if fld.Group != nil {
+							rec(fld.Group)
+						}
+						for _, o := range fld.Options {
+							if strings.HasPrefix(o.Name, "(") {
+								ok = false // custom options need their defining file imported
+							}
+						}
+					}
+					for _, o := range x.Options {
+						if strings.HasPrefix(o.Name, "(") {
+							ok = false
+						}
+					}
+					for _, n := range x.Nested {
+						rec(n)
+					}
+					for _, en := range x.Enums {
+						for _, o := range en.Options {
+							if strings.HasPrefix(o.Name, "(") {
+								ok = false
+							}
+						}
+						for _, v := range en.Values {
+							if len(v.Options) > 0 {
+								ok = false
+							}
+						}
+					}
+				}
+				rec(m)
+				if ok {
+					cands = append(cands, cand{m, f, g})
+				}
+			}
+		}
+	}
+	if len(cands) == 0 {
+		return nil, nil, nil, false
+	}
+	c := cands[e.pick("move", len(cands))]
+	var rest []*Message
+	for _, m := range c.from.Messages {
+		if m != c.m {
+			rest = append(rest, m)
+		}
+	}
+	c.from.Messages = rest
+	c.to.Messages = append(c.to.Messages, c.m)
+	return c.m, c.from, c.to, true
+}
+
+// referencedOutside reports whether full (or something nested in it) is referenced from anywhere except inside itself.
+func referencedOutside(ws *Workspace, home *File, full string) bool {
+	found := false
+	for _, f := range ws.AllFiles() {
+		chk := func(t string, self bool) {
+			if (t == full || strings.HasPrefix(t, full+".")) && !self {
+				found = true
+			}
+		}
+		f.WalkMessages(func(m MsgRef) {
+			self := "."+m.Full == full || strings.HasPrefix("."+m.Full, full+".")
+			for _, fld := range m.Msg.Fields {
+				if fld.TypeKind != "scalar" {
+					chk(fld.Type, self)
+				}
+			}
+			for _, x := range m.Msg.Extensions {
+				chk(x.Extendee, false)
+				if x.TypeKind != "scalar" {
+					chk(x.Type, false)
+				}
+			}
+		})
+		for _, x := range f.Extensions {
+			chk(x.Extendee, false)
+			if x.TypeKind != "scalar" {
+				chk(x.Type, false)
+			}
+		}
+		for _, sv := range f.Services {
+			for _, m := range sv.Methods {
+				chk(m.Input, false)
+				chk(m.Output, false)
+			}
+		}
+	}
+	return found
+}
+
+func opMoveMessage(e *Editor, ws *Workspace) (*Edit, bool) {
+	m, from, to, ok := e.MoveMessage(ws)
+	if !ok {
+		return nil, false
+	}
+	return &Edit{Op: "move-message-to-sibling-file", Desc: fmt.Sprintf("move message %s from %s to %s (same package)", m.Name, from.Path, to.Path),
+		Rules: []string{"MESSAGE_NO_DELETE"}, File: from.Path, Mention: []string{m.Name}}, true
+}
+
+// DeleteFieldOf deletes a drawn field of the given message (nothing reserved) and returns it.
+func (e *Editor) DeleteFieldOf(m *Message) *Field {
+	if len(m.Fields) == 0 {
+		return nil
+	}
+	fld := m.Fields[e.pick("delfield", len(m.Fields))]
+	removeField(m, fld)
+	e.bury(m.ID, fld.Number)
+	return fld
 }
 
 func opChangeRPC(e *Editor, ws *Workspace) (*Edit, bool) {
@@ -1437,6 +1605,7 @@ var BreakingOps = []BreakingOp{
 	{"delete-rpc", opDeleteRPC},
 	{"delete-extension", opDeleteExtension},
 	{"delete-file", opDeleteFile},
+	{"move-message", opMoveMessage},
 	{"change-scalar-kind", opChangeScalarKind},
 	{"change-map-kind", opChangeMapKind},
 	{"scalar-to-message-or-enum", opScalarToMessageOrEnum},
